@@ -72,8 +72,11 @@ def generate(run_seed, tier):
     if 'FlatMie' in contribs and 'LeeMie' in contribs and c.random() < 0.9:
         contribs.remove(c.choice(['FlatMie', 'LeeMie']))
     c.shuffle(contribs)
+    # (TiO and VO absorb but have no Rayleigh data: the list of scatterers is
+    # then shorter than the list of gases)
     mcfg = R.gen_model_cfg(c, family='transmission', contribs=contribs,
-                           nmol=c.choice([2, 2, 3]))
+                           nmol=c.choice([2, 2, 3]),
+                           pool=['H2O', 'CH4', 'CO2', 'CO', 'TiO', 'VO'])
     mcfg['nlayers'] = c.randint(2, 8)
     mcfg['opac']['ngrid'] = c.randint(8, 24)
     mcfg['opac']['logmag'] = c.choice([[-24, -20], [-26, -22], [-22, -17]])
